@@ -55,6 +55,7 @@ def arg_roles(body, a, frames=()):
     lits = flow.slice_literals(_DB[0], body, sl) if _DB[0] is not None else {c["v"] for c in sl.consts if c.get("c") in ("str", "bstr")}
     items = {short(c["def"]) for c in sl.consts if c.get("c") == "item"}
     way = {short(callee_def(t)) for _, t, _ in sl.calls}
+    helper_lits = set()
     # a private helper of the signing code on the way (`included_headers(..)`: an iterator over the headers that are signed) stands for what it
     # does inside; predicates (functions returning bool) select, they do not transform
     if _DB[0] is not None:
@@ -65,6 +66,17 @@ def arg_roles(body, a, frames=()):
                 continue
             way.discard(short(callee_def(t)))
             for x in _DB[0].nested(cb):
+                # literals the helper selects among / looks up by (`headers.get_unique("date")`)
+                for _, _, st_ in x.stmts():
+                    for o_ in st_["rv"].get("ops", []):
+                        if isinstance(o_, dict) and o_.get("c") == "str":
+                            helper_lits.add(o_["v"])
+                for _, ct in x.calls():
+                    for a_ in ct["args"]:
+                        c_ = flow.const_of(x, a_)
+                        if c_ is not None and c_.get("c") == "str":
+                            helper_lits.add(c_["v"])
+            for x in _DB[0].nested(cb):
                 for _, ct in x.calls():
                     if flow.is_transparent(ct) or ct.get("span", {}).get("exp"):
                         continue
@@ -72,7 +84,7 @@ def arg_roles(body, a, frames=()):
                     if c2 is not None and c2.raw.get("ret") == "bool":
                         continue
                     way.add(short(callee_def(ct)))
-    lits = set(lits) | items
+    lits = set(lits) | items | helper_lits
     # function items passed as values (`.map(str::trim)`) are waypoints too, and so is whatever a closure in the slice calls
     way |= {short(c["def"]) for c in sl.consts if c.get("c") == "fn" and c.get("def")}
     if _DB[0] is not None:
@@ -340,6 +352,13 @@ def _family(db, b):
     return out
 
 
+def _exclusive_events(e1, e2):
+    try:
+        return layout._exclusive(e1, e2)
+    except Exception:
+        return False
+
+
 def rule_r6_v2(chk, db):
     _DB[0] = db
     b = db.body(M2 + "create_string_to_sign")
@@ -362,7 +381,22 @@ def rule_r6_v2(chk, db):
     # date | expires alternatives: two (push_str, push '\n') pairs in either order
     alts = rest[:4]
     date_ok = exp_ok = False
-    for j in (0, 2):
+    n_date = 4
+    # one `value \n` line whose value a selector helper picks by mode (Date / "" / Expires)
+    if len(rest) >= 2 and rest[0]["short"] == "push_str" and rest[1]["short"] == "push" and rest[1]["consts"][:1] == [NL] and \
+            not (len(rest) >= 4 and rest[2]["short"] == "push_str" and rest[3]["short"] == "push" and rest[3]["consts"][:1] == [NL] and
+                 _exclusive_events(rest[0], rest[2])):
+        p_, l_, w_ = set(), set(), set()
+        for a in rest[0]["args"]:
+            p2, l2, w2 = arg_roles(rest[0].get("body", b), a, rest[0].get("frames", ()))
+            p_ |= p2
+            l_ |= l2
+            w_ |= w2
+        if {"date", "Expires", "x-amz-date", ""} <= l_ and {"headers", "qs", "mode"} <= p_:
+            date_ok = exp_ok = True
+            n_date = 2
+            alts = []
+    for j in ((0, 2) if alts else ()):
         e, nl = alts[j], alts[j + 1]
         if nl["short"] != "push" or nl["consts"][:1] != [NL] or e["short"] != "push_str":
             bad.append("date/expires segment is not `value \\n`")
@@ -385,7 +419,7 @@ def rule_r6_v2(chk, db):
         bad.append("HeaderAuth mode does not sign `Date` (empty when x-amz-date is present)")
     if not exp_ok:
         bad.append("PresignedUrl mode does not sign the `Expires` parameter")
-    tail = layout.canon(rest[4:])
+    tail = layout.canon(rest[n_date:])
     H = dict(params={"headers"})
     exp_tail = [
         LOOP(E("push_str", **H), E("push", ":"), JOIN(E("push", ","), E("push_str", params={"headers"}, way={"trim"})), E("push", NL)),
